@@ -1,6 +1,7 @@
 (** Evaluator glue for C15. *)
 From AGH Require Import Base.Run Model.RuleListParser.
 From AGH Require Export Model.Refresh.
+From AGH Require Import Model.FilterQueue Model.RefreshQueue.
 Local Open Scope N_scope.
 
 (** Input texts are given in pieces so that 64 KiB lines stay small on paper. *)
@@ -43,7 +44,11 @@ Inductive rstep :=
      has returned); observed when the pass has returned *)
   | ROver (allow force : bool) (due : list N) (ocs : list (N * outcome))
           (url : N) (name : bytes) (nurl : N) (enabled : bool) (o : outcome)
-          (obs_updated : N) (obs_net_err : bool) (obs_lists : list lobs) (obs_verdicts : list N).
+          (obs_updated : N) (obs_net_err : bool) (obs_lists : list lobs) (obs_verdicts : list N)
+  (* queue histories only ([CQueue]): a request that ends in EnableFilters(true)
+     without changing the lists; the updates loop run until the channel is empty *)
+  | RTouch (obs_lists : list lobs) (obs_verdicts : list N)
+  | RLoop (obs_lists : list lobs) (obs_verdicts : list N).
 
 Inductive case :=
   (* text, reader ends in an error; observed: error class, title, rule count,
@@ -62,7 +67,12 @@ Inductive case :=
      body. *)
   | CBig (lines size : N) (obs_updated : bool) (obs_count obs_size : N) (obs_last : bytes)
   (* block lists and allow lists (id, enabled, name), probe names, history *)
-  | CRefresh (bl al : list (N * bool * bytes)) (probes : list bytes) (steps : list rstep).
+  | CRefresh (bl al : list (N * bool * bytes)) (probes : list bytes) (steps : list rstep)
+  (* the same state behind the queue of rebuild requests (Model/RefreshQueue.v):
+     RSet is the handler's asynchronous form (filterSetProperties, then
+     EnableFilters(true)), RStep / RRebuild rebuild synchronously, RTouch asks
+     for a rebuild, RLoop lets the real updatesLoop serve the channel *)
+  | CQueue (bl al : list (N * bool * bytes)) (probes : list bytes) (steps : list rstep).
 
 Definition mk_list (p : N * bool * bytes) : flist :=
   let '(i, en, name) := p in
@@ -92,6 +102,24 @@ Definition run_step (s : rstep) (st : rstate) : bool * rstate :=
       let '(n', ne') := over_report crc32_update a f due' (oc_of ocs) mid st in
       (Bool.eqb ne ne' && (n =? if ne then 0 else n'),
        refresh_over crc32_update a f due' (oc_of ocs) mid st)
+  | RTouch _ _ | RLoop _ _ => (false, st)   (* queue histories only *)
+  end.
+
+(** Queue histories: the state behind the channel of rebuild requests. *)
+Definition qrun_step (s : rstep) (q : qr) : bool * qr :=
+  match s with
+  | RStep b a f due ocs n ne _ _ =>
+      let due' := fun i => existsb (N.eqb i) due in
+      (Bool.eqb ne (pass_net_error crc32_update b a f due' (oc_of ocs) (qr_st q)) &&
+       (n =? if ne then 0 else pass_updated crc32_update b a f due' (oc_of ocs) (qr_st q)),
+       qstep crc32_update enq_drain_send q (QRefresh b a f due' (oc_of ocs)))
+  | RSet a u name nu en o rs er _ _ =>
+      let '(rs', er', q') := set_async crc32_update enq_drain_send a u name nu en o q in
+      (Bool.eqb er er' && (er || Bool.eqb rs rs'), q')
+  | RRebuild _ _ => (true, qstep crc32_update enq_drain_send q QSync)
+  | RTouch _ _ => (true, qstep crc32_update enq_drain_send q QTouch)
+  | RLoop _ _ => (true, qstep crc32_update enq_drain_send q QLoop)
+  | RRestart _ _ | ROver _ _ _ _ _ _ _ _ _ _ _ _ _ => (false, q)
   end.
 
 Definition file_gen (i : N) (fs : files) : option N :=
@@ -114,6 +142,8 @@ Definition step_obs (s : rstep) : list lobs * list N :=
   | RStep _ _ _ _ _ _ _ ol ov => (ol, ov) | RSet _ _ _ _ _ _ _ _ ol ov => (ol, ov) | RRebuild ol ov => (ol, ov)
   | RRestart ol ov => (ol, ov)
   | ROver _ _ _ _ _ _ _ _ _ _ _ ol ov => (ol, ov)
+  | RTouch ol ov => (ol, ov)
+  | RLoop ol ov => (ol, ov)
   end.
 
 Definition step_agrees (probes : list bytes) (s : rstep) (st0 st : rstate) : bool :=
@@ -125,6 +155,13 @@ Fixpoint run_steps (probes : list bytes) (ss : list rstep) (st : rstate) : bool 
   | [] => true
   | s :: r => let '(ok, st') := run_step s st in
               ok && step_agrees probes s st st' && run_steps probes r st'
+  end.
+
+Fixpoint qrun_steps (probes : list bytes) (ss : list rstep) (q : qr) : bool :=
+  match ss with
+  | [] => true
+  | s :: r => let '(ok, q') := qrun_step s q in
+              ok && step_agrees probes s (qr_st q) (qr_st q') && qrun_steps probes r q'
   end.
 
 Definition init_state (bl al : list (N * bool * bytes)) : rstate :=
@@ -142,6 +179,7 @@ Definition case_ok (c : case) : bool :=
   | CBig lines size upd cnt sz last =>
       upd && (cnt =? lines + 1) && (sz =? size) && eqb_bytes last (numbered (lines - 1))
   | CRefresh bl al probes steps => run_steps probes steps (init_state bl al)
+  | CQueue bl al probes steps => qrun_steps probes steps (qidle (init_state bl al))
   | CParse x re e ti cnt wr sum out =>
       let '(st, err) := parse crc32_update (expand x) re in
       (err_code err =? e)%Z && eqb_bytes (p_title st) ti && (p_count st =? cnt) &&
@@ -165,10 +203,23 @@ Fixpoint explain_steps (probes : list bytes) (ss : list rstep) (st : rstate) :=
        map (verdict (r_engine st')) probes) :: explain_steps probes r st'
   end.
 
+Fixpoint qexplain_steps (probes : list bytes) (ss : list rstep) (q : qr) :=
+  match ss with
+  | [] => []
+  | s :: r =>
+      let '(ok, q') := qrun_step s q in
+      let st' := qr_st q' in
+      (ok,
+       map (fun l => (f_id l, f_url l, f_enabled l, f_name l, f_count l, f_sum l, fgen (f_id l) (r_files st'),
+                      fget (f_id l) (r_files st'))) (r_block st' ++ r_allow st'),
+       map (verdict (r_engine st')) probes) :: qexplain_steps probes r q'
+  end.
+
 Definition explain (c : case) :=
   match c with
   | CBig lines size _ _ _ _ => inl (0%Z, numbered (lines - 1), lines + 1, size, 0, 0)
   | CRefresh bl al probes steps => inr (explain_steps probes steps (init_state bl al))
+  | CQueue bl al probes steps => inr (qexplain_steps probes steps (qidle (init_state bl al)))
   | CParse x re _ _ _ _ _ _ =>
       let '(st, err) := parse crc32_update (expand x) re in
       inl (err_code err, p_title st, p_count st, p_written st, p_sum st, lenN (output st))
